@@ -6,6 +6,9 @@ import ScnVerif.Model.Filtering
   `ok <start>:<len>:<mean>:<low>:<high> …` (one item per plateau, `ok` alone if none),
   `err:coord`, or `err:runtime <k,k,…>` (indices of the plateaus exceeding the total tolerance).
   Floats as hex bit patterns; integer coordinates (`i`) in decimal.
+* `c19.contents <f|i> <minN> <atol> <n> <x…> <y…> <tok₁ … tokₙ>` → `ok tok,tok,… tok,…` : the bins with the opaque
+  per-point records (further coordinates, variance, mask flags) they hold
+* `c19.collapsem <f|i> <minN> <atol> <n> <x…> <y…> <var…> <masked 0|1 …>` → `ok mean:variance …` (masked points skipped)
 * `c19.slopes <f|i> <n> <x…> <y…>` → slopes as hex bit patterns
 * `c19.groupids <atol> <f|i> <n> <x…> <y…>` → group id per point
 * `c19.inphase <ref> <rtol> <x₁ …>` → indices kept
@@ -46,6 +49,31 @@ def handle : List String → Option String
       | .error (.coord, _) => some "err:coord"
       | .error (.runtime, bad) => some ("err:runtime " ++ natList bad)
       | .ok bins => some (" ".intercalate ("ok" :: bins.map (item c ys)))
+  | "c19.contents" :: kind :: minN :: atol :: n :: rest => do
+      let minN ← minN.toNat?
+      let atol ← f64? atol
+      let n ← n.toNat?
+      if rest.length ≠ 3 * n then none else
+      let (c, ys) ← split? kind n (rest.take (2 * n))
+      let toks := rest.drop (2 * n)
+      match findPlateaus c ys atol minN with
+      | .error (.coord, _) => some "err:coord"
+      | .error (.runtime, bad) => some ("err:runtime " ++ natList bad)
+      | .ok bins => some (" ".intercalate ("ok" :: (binContents toks bins).map (fun b => ",".intercalate b)))
+  | "c19.collapsem" :: kind :: minN :: atol :: n :: rest => do
+      let minN ← minN.toNat?
+      let atol ← f64? atol
+      let n ← n.toNat?
+      if rest.length ≠ 4 * n then none else
+      let (c, ys) ← split? kind n (rest.take (2 * n))
+      let vars ← floats? ((rest.drop (2 * n)).take n)
+      let masked := (rest.drop (3 * n)).map (· == "1")
+      match findPlateaus c ys atol minN with
+      | .error (.coord, _) => some "err:coord"
+      | .error (.runtime, bad) => some ("err:runtime " ++ natList bad)
+      | .ok bins => some (" ".intercalate ("ok" :: bins.map (fun r =>
+          let mv := collapseMasked ys vars masked r
+          s!"{f64Hex mv.1}:{f64Hex mv.2}")))
   | "c19.slopes" :: kind :: n :: rest => do
       let n ← n.toNat?
       let (c, ys) ← split? kind n rest
